@@ -2485,7 +2485,10 @@ def default_save_handler(
   else:
     raise ValueError(f'Unsupported `file_format`: {file_format!r}.')
 
-  pg_io.mkdirs(os.path.dirname(path), exist_ok=True)
+  # NOTE: a bare file name has no directory part.
+  dirname = os.path.dirname(path)
+  if dirname:
+    pg_io.mkdirs(dirname, exist_ok=True)
   pg_io.writefile(path, content)
 
 
